@@ -8,6 +8,6 @@ EXTENDS Resilience, Resilience_Scn
 VARIABLE pick
 
 MNext == Next /\ UNCHANGED pick
-AllSpec   == pick \in AllScenarios /\ InitAs(pick) /\ [][MNext]_<<vars, pick>>
-QuickSpec == pick \in QuickScenarios /\ InitAs(pick) /\ [][MNext]_<<vars, pick>>
+AllSpec   == InAll(pick) /\ InitAs(pick) /\ [][MNext]_<<vars, pick>>
+QuickSpec == InQuick(pick) /\ InitAs(pick) /\ [][MNext]_<<vars, pick>>
 =============================================================================
